@@ -49,7 +49,11 @@ func (nopLog) Warning(string, ...interface{})   {}
 func (nopLog) Warningf(string, ...interface{})  {}
 func (l nopLog) With(...interface{}) log.Logger { return l }
 
-type connMock struct{ fail bool }
+type connMock struct {
+	mu     sync.Mutex
+	fail   bool
+	failTx map[string]bool // encoded transactions whose Publish fails (overlapping Adds)
+}
 
 func (c *connMock) Broadcast(context.Context, string, []byte) error { return nil }
 func (c *connMock) RegisterRPCHandler(string, p2p.RPCHandler, ...p2p.RPCHandlerOption) error {
@@ -60,7 +64,15 @@ func (c *connMock) ApplyPenalty(p2p.PeerID, int)                                
 func (c *connMock) RequestFrom(context.Context, p2p.PeerID, string, []byte) p2p.Response {
 	return *p2p.NewResponse(0, "", nil, nil)
 }
-func (c *connMock) Publish(context.Context, string, []byte) error {
+func (c *connMock) Publish(_ context.Context, _ string, data []byte) error {
+	c.mu.Lock()
+	defer c.mu.Unlock()
+	if f, ok := c.failTx[string(data)]; ok {
+		if f {
+			return errors.New("publish failed")
+		}
+		return nil
+	}
 	if c.fail {
 		return errors.New("publish failed")
 	}
@@ -76,12 +88,25 @@ type abiMock struct {
 	armed   map[string]bool
 	arrived chan struct{}
 	release chan struct{}
+	holds   map[string]*hold // Add overlaps: the Add of this id parks at its own verifier call
+}
+
+type hold struct {
+	arrived chan struct{}
+	release chan struct{}
 }
 
 func (m *abiMock) VerifyTransaction(req *labi.VerifyTransactionRequest) (*labi.VerifyTransactionResponse, error) {
 	id := hex.EncodeToString(req.Transaction.ID)
 	var rel chan struct{}
 	m.mu.Lock()
+	if h := m.holds[id]; h != nil {
+		delete(m.holds, id)
+		m.mu.Unlock()
+		close(h.arrived)
+		<-h.release
+		m.mu.Lock()
+	}
 	if m.armed[id] {
 		delete(m.armed, id)
 		rel = m.release
@@ -160,6 +185,8 @@ type stepJ struct {
 	API   bool          `json:"api"`
 	Gone  []int         `json:"gone"`
 	Snap  snapJ         `json:"snap"`
+	Skip  bool          `json:"skip,omitempty"` // overlapped with the following step(s): no snapshot in between
+	Par   int           `json:"par,omitempty"`  // 1 = this Add was parked at its verifier call while the next op was issued
 	tx    *txInfo
 }
 
@@ -195,7 +222,7 @@ type runner struct {
 
 func newRunner(cfg [4]uint64) *runner {
 	r := &runner{cfg: cfg, txs: map[int]*txInfo{}, byID: map[string]int{}, byAddr: map[string]int{},
-		abi: &abiMock{verdict: map[string]int{}, armed: map[string]bool{}}, conn: &connMock{},
+		abi: &abiMock{verdict: map[string]int{}, armed: map[string]bool{}, holds: map[string]*hold{}}, conn: &connMock{failTx: map[string]bool{}},
 		last: snapJ{All: []int{}, Queue: []int{}, Qhead: -1, Lists: []listJ{}}}
 	r.pool = txpool.NewTransactionPool(&txpool.TransactionPoolConfig{MaxTransactions: int(cfg[0]), MaxTransactionsPerAccount: int(cfg[1]),
 		MinEntranceFeePriority: cfg[2], MinReplacementFeeDifference: cfg[3]})
@@ -524,7 +551,7 @@ func (g *gen) clash(sender int, nonce, prio uint64) bool {
 	return false
 }
 
-func (g *gen) add(prefer []int) {
+func (g *gen) pickAdd(prefer []int) (*txInfo, int, int) {
 	in, out := g.inPool(), g.notInPool()
 	var t *txInfo
 	roll := g.r.Intn(100)
@@ -569,7 +596,12 @@ func (g *gen) add(prefer []int) {
 		t = g.newTx(s, uint64(nonce), p*size+uint64(g.r.Intn(20)))
 	}
 	v := map[int]int{8: 1, 9: 2}[g.r.Intn(10)]
-	g.run.add(t, v, b2i(g.r.Intn(10) != 0))
+	return t, v, b2i(g.r.Intn(10) != 0)
+}
+
+func (g *gen) add(prefer []int) {
+	t, v, pub := g.pickAdd(prefer)
+	g.run.add(t, v, pub)
 }
 
 func (g *gen) rm() {
@@ -663,8 +695,10 @@ func genCase(rng *hx.Rng, maxLen int) caseJ {
 		case open:
 			open = false
 			g.run.finish(g.answers())
-		case w < 55:
+		case w < 45:
 			g.add(nil)
+		case w < 57:
+			g.par()
 		case w < 70:
 			g.rm()
 		default:
@@ -683,7 +717,10 @@ func genCase(rng *hx.Rng, maxLen int) caseJ {
 func replayCase(line string) caseJ {
 	var in struct {
 		Cfg   [4]uint64
-		Steps []struct{ Op []json.RawMessage }
+		Steps []struct {
+			Op  []json.RawMessage
+			Par int
+		}
 	}
 	if err := json.Unmarshal([]byte(line), &in); err != nil {
 		panic(err)
@@ -694,12 +731,52 @@ func replayCase(line string) caseJ {
 			panic(err)
 		}
 	}
-	for _, s := range in.Steps {
+	readAdd := func(op []json.RawMessage) (*txInfo, int, int) {
+		var num, sender, v, pub int
+		var nonce, fee uint64
+		arg(op[1], &num)
+		arg(op[2], &sender)
+		arg(op[3], &nonce)
+		arg(op[4], &fee)
+		arg(op[6], &v)
+		arg(op[7], &pub)
+		t := r.txs[num]
+		if t == nil {
+			t = r.mkTx(num, sender, nonce, fee)
+		}
+		return t, v, pub
+	}
+	for i := 0; i < len(in.Steps); i++ {
+		s := in.Steps[i]
 		if r.dead {
 			break
 		}
 		var kind string
 		arg(s.Op[0], &kind)
+		if s.Par == 1 && kind == "add" && i+1 < len(in.Steps) {
+			ta, va, pa := readAdd(s.Op)
+			nx := in.Steps[i+1]
+			var k2 string
+			arg(nx.Op[0], &k2)
+			b := parOp{kind: k2}
+			switch k2 {
+			case "add":
+				b.t, b.v, b.pub = readAdd(nx.Op)
+				i++
+			case "rm":
+				arg(nx.Op[1], &b.num)
+				i++
+			case "begin":
+				if i+2 < len(in.Steps) {
+					arg(in.Steps[i+2].Op[1], &b.ans)
+				}
+				i += 2
+			default:
+				panic("par: unsupported second op " + k2)
+			}
+			r.par(ta, va, pa, b)
+			continue
+		}
 		switch kind {
 		case "add":
 			var num, sender, v, pub int
